@@ -113,12 +113,17 @@ func runLvl(c *lvlCase) (o lvlObs) {
 			return
 		}
 		cleanup = func() {}
-	case "ws", "wss":
+	case "ws", "wss", "ws-tlscfg":
 		var tlsS, tlsC *tls.Config
 		scheme := "ws"
 		if c.Transport == "wss" {
 			tlsS, tlsC = pair.TLSConfigs()
 			scheme = "wss"
+		}
+		if c.Transport == "ws-tlscfg" {
+			// an application that hands one TLS configuration to every endpoint, this plain one included:
+			// the connection is not encrypted and both ends must say so
+			_, tlsC = pair.TLSConfigs()
 		}
 		l := lime.NewWebsocketTransportListener(&lime.WebsocketConfig{TLSConfig: tlsS})
 		addr, err := freePort()
@@ -274,7 +279,7 @@ func init() {
 		if err := c08Mode(judgeC09cli, "c09")(e); err != nil {
 			return err
 		}
-		e.Rep.Rule = rule + " | client half: the C08 server-script enumeration judged by cliAppliedRev | library client against library server: every transport (TCP over pipe with/without TLS, in-process, ws, wss) x configured option lists x selector behaviours, both real handshakes run against each other; observed: final states, Encryption()/Compression() on both ends, the encryption in force when Authenticate runs and when the credentials are written."
+		e.Rep.Rule = rule + " | client half: the C08 server-script enumeration judged by cliAppliedRev | library client against library server: every transport (TCP over pipe with/without TLS, in-process, ws, wss, and ws dialled with a TLS configuration that the plain URL does not use) x configured option lists x selector behaviours, both real handshakes run against each other; observed: final states, Encryption()/Compression() on both ends, the encryption in force when Authenticate runs and when the credentials are written."
 		if e.Replay != "" {
 			return nil
 		}
@@ -284,9 +289,19 @@ func init() {
 		sels := [][2]string{{"none", "none"}, {"first", "tls"}, {"first", "first"}, {"last", "last"}, {"empty", "unknown"}, {"gzip", "tls"}}
 		trs := []string{"pipe", "pipe-tls", "inproc"}
 		if e.Thorough() {
-			trs = append(trs, "ws", "wss")
+			trs = append(trs, "ws", "wss", "ws-tlscfg")
 		}
 		var cases []*lvlCase
+		if !e.Thorough() {
+			// the WebSocket transports on a reduced grid in the quick tier
+			for _, tr := range []string{"ws", "wss", "ws-tlscfg"} {
+				for _, en := range encs {
+					for _, sl := range sels[:3] {
+						cases = append(cases, &lvlCase{Transport: tr, Comp: comps[0], Enc: en, CompSel: sl[0], EncSel: sl[1]})
+					}
+				}
+			}
+		}
 		for _, tr := range trs {
 			for _, co := range comps {
 				for _, en := range encs {
